@@ -157,7 +157,10 @@ def history (j : Json) : R Json := do
   let out := historyRun user (HistState.init user) sts
   return listJ (fun (r : Lib × Bool) => objJ [("lib", Json.str r.1.name), ("newAinv", Json.bool r.2)]) out
 
-/-- `_sparse_eigvec_sens`; the per-mode adjoint solvers are exact solves with `(A − λᵢ B)ᵀ` (contract checked) -/
+/-- `_sparse_eigvec_sens`; the per-mode adjoint solvers are exact solves with `(A − λᵢ B)ᵀ` (contract checked). The
+optional field `kick` (one scalar per mode) adds `kickᵢ · φᵢ` to every solution the solver returns: for an exact eigenpair
+that is ANOTHER solution of the singular system (theorem `eig_sparse_eigvec_solver_indep`: same dyads); with the captured
+floating-point pairs the system is only nearly singular and the result moves by `kick · (1 − φᵀBφ)`. -/
 def eigvecsens (j : Json) : R Json := do
   let n ← getNat j "n"
   let m ← getNat j "nm"
@@ -169,6 +172,8 @@ def eigvecsens (j : Json) : R Json := do
   let dQ ← getMat n m j "dQ"
   let ar ← getBool j "Areal"
   let br ← getBool j "Breal"
+  let kick ← getOpt (asVec m) j "kick"
+  let kickv : Fin m → CQ := kick.getD 0
   let Bm := B.getD 1
   let mut invs : Array (Mat n n) := #[]
   for i in List.finRange m do
@@ -177,7 +182,7 @@ def eigvecsens (j : Json) : R Json := do
       let Z ← memoM (A - W i • Bm)ᵀ
       let inv ← exactInv Z
       invs := invs.push inv
-  let zsolveT : Fin m → (Fin n → CQ) → (Fin n → CQ) := fun i r => invs[i.val]! *ᵥ r
+  let zsolveT : Fin m → (Fin n → CQ) → (Fin n → CQ) := fun i r => invs[i.val]! *ᵥ r + kickv i • fun r => Q r i
   let (dA, dB) := sparseEigvecSens RP ar br zsolveT B W Q dW dQ
   return objJ [("dA", matJ dA.toDense), ("dB", matJ dB.toDense)]
 
